@@ -833,8 +833,15 @@ theorem not_youtube_host (puny : Str → Str) (host : Str) (hne : host ≠ []) (
     exact absurd hs (h d hd)
 
 /-- `amp-facebook.com` is neither a facebook host (`(?:^|\.)facebook\.` needs a label boundary) nor
-a youtube host: the url is not a platform url (also a non-vacuity witness of `NotPlatform` for the
-module's trie, through the host-level characterisation) -/
+a youtube host of the module's list -/
+theorem amp_facebook_not_platform_host :
+    platformHost id (Youtube.youtubeTrie id) "amp-facebook.com".toList = false := by
+  simp only [platformHost, Bool.or_eq_false_iff]
+  refine ⟨by decide +kernel, ?_⟩
+  exact not_youtube_host id _ (by decide) (by decide +kernel) (by decide +kernel)
+
+/-- … hence `https://amp-facebook.com/nasa/posts/123?x=1` is not a platform url (a non-vacuity
+witness of `NotPlatform` for the module's trie, through the host-level characterisation) -/
 theorem d53_amp_dash_not_platform :
     NotPlatform id false "https://amp-facebook.com/nasa/posts/123?x=1".toList := by
   unfold NotPlatform
@@ -842,9 +849,7 @@ theorem d53_amp_dash_not_platform :
   have h1 : Sites.get_hostname (ensured false "https://amp-facebook.com/nasa/posts/123?x=1".toList) =
       some "amp-facebook.com".toList := by decide +kernel
   rw [h1]
-  simp only [platformHost, Bool.or_eq_false_iff]
-  refine ⟨by decide +kernel, ?_⟩
-  exact not_youtube_host id _ (by decide) (by decide +kernel) (by decide +kernel)
+  exact amp_facebook_not_platform_host
 
 /-- **a label in front of the host**: the `amp-` prefix, which `normalize_url` removes from the
 host, hides the facebook host from the branch -/
@@ -1016,3 +1021,122 @@ theorem fp_shape_whole_pa (puny : Str → Str) (trie : SNode Str) (s : Bool) (g 
   exact fp_shape_whole puny trie s g u po hpo hs hg r h
 
 end Ural.Props.C06
+
+namespace Ural.Props.C05
+open Ural Ural.Py Ural.UrlParts Ural.Quote Ural.Normalize Ural.Fingerprint Ural.NormBridge Ural.Platform
+
+/-! ## "host not a platform host" for the strings of the grammar class -/
+
+/-- the scheme prefixes C18's `forms_agree` speaks about: `http://`, `https://`, `//`, none -/
+def webProto : Proto → Bool
+  | .scheme sc => sc = "http".toList || sc = "https".toList
+  | .slashes => true
+  | .bare => true
+
+theorem rest_eq_authority (g : UrlG) (hbr : g.br = false) :
+    g.rest = Sites.authority g.ui g.host g.port ++ g.tail := by
+  unfold UrlG.rest UrlG.netloc UrlG.hostPart Sites.authority
+  rw [hbr]
+  cases g.ui <;> cases g.port <;> simp [NormBridge.uiPart, NormBridge.portPart, Sites.uiPart, Sites.portPart]
+
+theorem mem_bad_of {c : Char} {bad : List Char} {s : Str} (h : free bad s = true) (hc : c ∈ s) : c ∉ bad :=
+  (free_iff.mp h) c hc
+
+/-- **for a string of the grammar class with a web scheme and a host name (no IP literal, no
+`%`), "not a platform url" is a property of the host text**: `NotPlatform` holds as soon as the
+lower-cased host is neither a facebook host (`FACEBOOK_DOMAIN_RE`) nor a youtube host
+(`YOUTUBE_DOMAINS_TRIE`) — whatever the userinfo, the port, the path, the query, the fragment -/
+theorem notPlatform_of_host (puny : Str → Str) (ir : Bool) (g : UrlG) (hg : InClass ir g)
+    (hpr : webProto g.proto = true) (hbr : g.br = false) (hne : g.host ≠ []) (hpct : '%' ∉ g.host)
+    (hh : platformHost puny (Youtube.youtubeTrie puny) (lower g.host) = false) :
+    NotPlatform puny ir g.str := by
+  have hf := wf_facts hg.wf
+  have hsafe : NoUnsafe g.rest := hg.of.noUnsafe
+  obtain ⟨_, hproto⟩ := parse_str g hg.wf hsafe
+  have hens : ensured ir g.str = ensureHttp g.str := by rw [ensured_eq, hg.plain.resolved]
+  have hrest := rest_eq_authority g hbr
+  -- the hypotheses of C18's decoy theorem, from the grammar class
+  have hin : ∀ c, c ∈ Sites.authority g.ui g.host g.port → c ∈ g.rest := by
+    intro c hc; rw [hrest]; exact List.mem_append_left _ hc
+  have hui : ∀ u, g.ui = some u → ∀ c ∈ u, Sites.authChar c = true := by
+    intro u hu c hc
+    have hb : c ∉ ['/', '?', '#', '[', ']'] := by
+      have := hf.ui; rw [hu] at this; exact mem_bad_of (freeOpt_some this) hc
+    have hs := hsafe c (hin c (by simp [Sites.authority, Sites.uiPart, hu, hc]))
+    simp only [List.mem_cons, List.not_mem_nil, or_false, not_or] at hb
+    simp [Sites.authChar, isNetlocDelim, hb.1, hb.2.1, hb.2.2.1, hb.2.2.2.1, hb.2.2.2.2, hs]
+  have hhost : ∀ c ∈ g.host, Sites.hostChar c = true := by
+    intro c hc
+    have hb : c ∉ ['/', '?', '#', '@', ':', '[', ']'] := by
+      have := hf.host; rw [hbr] at this
+      simp only [Bool.false_eq_true, if_false] at this
+      exact mem_bad_of this hc
+    have hs := hsafe c (hin c (by simp [Sites.authority, hc]))
+    have hp : c ≠ '%' := fun e => hpct (e ▸ hc)
+    simp only [List.mem_cons, List.not_mem_nil, or_false, not_or] at hb
+    simp [Sites.hostChar, Sites.authChar, isNetlocDelim, hb.1, hb.2.1, hb.2.2.1, hb.2.2.2.1, hb.2.2.2.2.1,
+      hb.2.2.2.2.2.1, hb.2.2.2.2.2.2, hs, hp]
+  have hport : ∀ p, g.port = some p → ∀ c ∈ p, (Sites.authChar c && c != '@') = true := by
+    intro p hp c hc
+    have hb : c ∉ ['/', '?', '#', '@', '[', ']'] := by
+      have := hf.port; rw [hp] at this; exact mem_bad_of (freeOpt_some this) hc
+    have hs := hsafe c (hin c (by simp [Sites.authority, Sites.portPart, hp, hc]))
+    simp only [List.mem_cons, List.not_mem_nil, or_false, not_or] at hb
+    simp [Sites.authChar, isNetlocDelim, hb.1, hb.2.1, hb.2.2.1, hb.2.2.2.1, hb.2.2.2.2.1, hb.2.2.2.2.2, hs]
+  have htail : Sites.TailOK g.tail := by
+    cases ht : g.tail with
+    | nil => exact Or.inl rfl
+    | cons c t =>
+      refine Or.inr ⟨c, t, rfl, ?_⟩
+      have := tail_head_delim hf c (by rw [ht]; rfl)
+      simpa using this
+  have hbase : isPlatformUrl puny (Youtube.youtubeTrie puny) ("http://".toList ++ g.rest) = false := by
+    rw [hrest, isPlatformUrl_of_authority puny _ g.ui g.host g.port g.tail hui hhost hne hport htail]
+    exact hh
+  obtain ⟨f1, f2, f3⟩ := isPlatformUrl_forms puny (Youtube.youtubeTrie puny) g.rest
+  unfold NotPlatform
+  rw [hens]
+  unfold ensureHttp UrlG.str
+  cases hp : g.proto with
+  | scheme sc =>
+    rw [hp] at hpr hproto
+    simp only [webProto, Bool.or_eq_true, decide_eq_true_eq] at hpr
+    have e : hasProtocol ((Proto.scheme sc).str ++ g.rest) = true := by
+      have := hproto; unfold UrlG.str at this; rw [hp] at this; exact this
+    rw [e]
+    simp only [if_true]
+    rcases hpr with rfl | rfl
+    · exact hbase
+    · have : (Proto.scheme "https".toList).str ++ g.rest = "https://".toList ++ g.rest := by
+        simp [Proto.str]
+      rw [this, f1]; exact hbase
+  | slashes =>
+    rw [hp] at hproto
+    have e : hasProtocol (Proto.slashes.str ++ g.rest) = true := by
+      have := hproto; unfold UrlG.str at this; rw [hp] at this; exact this
+    rw [e]
+    simp only [if_true]
+    have : Proto.slashes.str ++ g.rest = "//".toList ++ g.rest := rfl
+    rw [this, f2]; exact hbase
+  | bare =>
+    rw [hp] at hproto
+    have e : hasProtocol (Proto.bare.str ++ g.rest) = false := by
+      have := hproto; unfold UrlG.str at this; rw [hp] at this; exact this
+    rw [e]
+    simp only [Bool.false_eq_true, if_false]
+    exact hbase
+
+/-- non-vacuity of `notPlatform_of_host` (and of the transfer corollaries): the grammar record of
+`https://u:p@amp-facebook.com:8080/nasa/posts/123?x=1#f` is in the class, its host is no platform
+host, hence the string is no platform url — userinfo, port, path, query, fragment play no role -/
+example :
+    let g : UrlG := { proto := .scheme "https".toList, ui := some "u:p".toList, host := "amp-facebook.com".toList,
+                      port := some "8080".toList, path := "/nasa/posts/123".toList, query := some "x=1".toList,
+                      fragment := some "f".toList }
+    g.str = "https://u:p@amp-facebook.com:8080/nasa/posts/123?x=1#f".toList ∧ NotPlatform id false g.str := by
+  intro g
+  refine ⟨by decide +kernel, ?_⟩
+  exact notPlatform_of_host id false g (by decide +kernel) (by decide) rfl (by decide) (by decide)
+    amp_facebook_not_platform_host
+
+end Ural.Props.C05
